@@ -236,6 +236,29 @@ def judge(ctx, specs, worlds, tag):
     return nviol
 
 
+def isa_edits(ctx, only=None):
+    """The ISA semantics file is a model file too: edits of it inside one process and between processes (oracle only; the Coq trace
+    model of the cache protocol is exercised by the arch-file histories)."""
+    combos = [("zen1", "comp"), ("n1", "comp"), ("zen1", "home")] if ctx.tier == "quick" else [(a, m) for a in ("zen1", "n1", "tx2") for m in ("comp", "home")]
+    if only:
+        combos = [tuple(only)]
+    with concurrent.futures.ThreadPoolExecutor(max_workers=3) as ex:
+        futs = {ex.submit(H.isa_edit_history, ctx.scratch, a, H.KERNELS[H.ISA_OF[a]][0], m): (a, m) for a, m in combos}
+        for f in concurrent.futures.as_completed(futs):
+            a, m = futs[f]
+            log, bad = f.result()
+            ctx.count(len(log))
+            ctx.nontriv(json.dumps(["isa-edit", a, m]))
+            for key, what in bad:
+                if key == "harness":
+                    ctx.obligation("ISA-edit reference for %s" % a, "harness", False, what)
+                else:
+                    ctx.violation(key, "--arch %s, %s cache: %s; history: %s" % (a, "home" if m == "home" else "companion", what, " ; ".join(log)),
+                                  {"isa_edit": [a, m]})
+                break
+    ctx.coverage["isa_edit_histories"] = len(combos)
+
+
 def run(ctx):
     ctx.trusted += [
         "Model/Cache.v is hand-written from hw_model.py (three reads of the model file, probe order, write target by os.access, "
@@ -273,6 +296,7 @@ def run(ctx):
         worlds2 = execute(ctx, specs2)
         nv += judge(ctx, specs2, worlds2, "random")
         ctx.sample(describe(specs2[0], worlds2[0]))
+        isa_edits(ctx)
     finally:
         cleanup(ctx)
     ctx.coverage["histories"] = len(specs) + len(specs2)
@@ -286,6 +310,12 @@ def cleanup(ctx):
 
 def replay(ctx, obj):
     r = obj["replay"]
+    if "isa_edit" in r:
+        try:
+            isa_edits(ctx, only=r["isa_edit"])
+        finally:
+            cleanup(ctx)
+        return
     if "refs" in r:
         try:
             refs = H.Refs.get(ctx.scratch, r["refs"]["arch"], r["refs"]["kernel"], r["refs"]["variants"])
